@@ -42,3 +42,17 @@ impl Rng {
         &xs[self.below(xs.len() as u64) as usize]
     }
 }
+
+/// TLC's JSON reader rejects `null`: drop null-valued keys, turn nulls in arrays into -1.
+pub fn strip_nulls(v: serde_json::Value) -> serde_json::Value {
+    use serde_json::Value;
+    match v {
+        Value::Object(m) => Value::Object(
+            m.into_iter().filter(|(_, x)| !x.is_null()).map(|(k, x)| (k, strip_nulls(x))).collect(),
+        ),
+        Value::Array(a) => Value::Array(
+            a.into_iter().map(|x| if x.is_null() { Value::from(-1) } else { strip_nulls(x) }).collect(),
+        ),
+        other => other,
+    }
+}
